@@ -24,16 +24,20 @@
   DIRECTION (B)  foreign JSON → object → JSON.  `Proj.*` read the listed attributes off a document
      by member name.  `abs_dec_*`: the re-saved form of anything the decoder accepts *is* the
      projection of the foreign document.  Document level: `foreign_*`.
-     The end-to-end statement `ForeignPreserved` (whole document in, whole document out) is kept as
-     a `def`; proved are all its components (`foreign_nodes_loaded`, `foreign_node_resaved`,
-     `foreign_offset_resaved`, `foreign_edges_loaded`, `foreign_meta_resaved`,
-     `foreign_envelope_*`), for any order in which `_hierarchy_order` lists the loaded nodes — not
-     that this order is the document's own for parent-first documents (C02/C03 material).
+     The end-to-end statement (whole document in, whole document out) is `foreign_preserved`:
+     for a parents-first document whose nodes decode to complete operations and whose edges join
+     existing nodes, loading and saving succeed and the saved document is, node for node at the same
+     index, the projection of the foreign one, with every edge and metadata entry
+     (`Proofs/SerialForeign.lean`, using that the reloaded HUGR is walked in index order, C02).
+     `ForeignPreserved` is the same conclusion stated from the success of `load_json` / `to_json`;
+     its components are also available separately (`foreign_nodes_loaded`, `foreign_node_resaved`,
+     `foreign_offset_resaved`, `foreign_edges_loaded`, `foreign_meta_resaved`, `foreign_envelope_*`).
 -/
 import HugrVerif.Proofs.C05
 import HugrVerif.Proofs.C05ProjOps
 import HugrVerif.Proofs.C05Doc
 import HugrVerif.Props.C02
+import HugrVerif.Proofs.SerialForeign
 
 set_option linter.unusedSimpArgs false
 set_option linter.unusedVariables false
@@ -594,6 +598,101 @@ theorem foreign_preserved_partial (f : Nat) (d : Doc) (s : St Op) (h : fromSeria
         r.1 = Proj.opAt (.int p) (Proj.val f) f d.nodes[k] ∧
         r.2 = C05Doc.savedEntry (getMeta d.metadata k)) :=
   ⟨foreign_nodes_loaded f d s h, fun order k hk r hs => foreign_node_resaved f d s h order k hk r hs⟩
+
+/-- the parent member of a node a decoder accepts is the decoded parent -/
+theorem parent_member_of_dec (f : Nat) (j : Json) (op : Op) (par : Int) (h : decOp (f + 1) j = .ok (op, par)) :
+    Proj.get "parent" (Proj.members j) = .int par := by
+  rw [decOp] at h
+  exact (Proj.abs_decWith _ (Proj.val f) (fun jv v hv => Proj.abs_val (fnSig f) f jv v hv) f _ op par h).1
+
+/-- **`ForeignPreserved`, with the conditions under which loading and saving succeed made explicit**:
+    for a parents-first document whose nodes all decode to operations with a defined port layout
+    (complete operations) and whose edges join existing nodes with non-negative explicit offsets
+    (what the schema admits), loading succeeds, saving succeeds, and the saved document has, node for
+    node at the same index, the projection of each foreign node, every edge in order with its offsets
+    (an absent one re-saved at the order port's layout offset, or 0), and the metadata entries. -/
+theorem foreign_preserved (f : Nat) (d : Doc) (hne : d.nodes ≠ []) (hpf : ParentsFirst d)
+    (hdec : ∀ k (hk : k < d.nodes.length), ∃ op par, decOp (f + 1) d.nodes[k] = .ok (op, par) ∧
+      ∀ inc, ∃ r, opOrderOff op inc = .ok r)
+    (hedges : ∀ e ∈ d.edges, EdgeOKO d.nodes.length e) :
+    ∃ s, fromSerial (opsCodec (f + 1)) d = .ok s ∧ ∃ d', toSerial (opsCodec (f + 1)) s = .ok d' ∧
+      d'.nodes = d.nodes.map (Proj.op (Proj.val f) f) ∧
+      d'.edges = d.edges.map (fun e =>
+        ⟨e.src, some (C05Doc.savedOffset e.srcOff (orderOfNode f d e.src false)),
+         e.dst, some (C05Doc.savedOffset e.dstOff (orderOfNode f d e.dst true))⟩) ∧
+      d'.metadata = some ((List.range d.nodes.length).map fun k => C05Doc.savedEntry (getMeta d.metadata k)) := by
+  -- total functions of the position
+  let opOf : Nat → Op := fun k => match d.nodes[k]? with
+    | some j => (match decOp (f + 1) j with | .ok (op, _) => op | .error _ => .input [])
+    | none => .input []
+  let parOf : Nat → Nat := fun k => match d.nodes[k]? with
+    | some j => (match decOp (f + 1) j with | .ok (_, par) => par.toNat | .error _ => 0)
+    | none => 0
+  let ordOf : Nat → Bool → Option Nat := fun k inc => orderOfNode f d k inc
+  let resaved : Nat → Json := fun k => match d.nodes[k]? with
+    | some j => Proj.op (Proj.val f) f j
+    | none => .null
+  have hfacts : ∀ k (hk : k < d.nodes.length), ∃ op par, decOp (f + 1) d.nodes[k] = .ok (op, par) ∧
+      opOf k = op ∧ (parOf k : Int) = par ∧ ((k = 0 ∧ parOf k = 0) ∨ (0 < k ∧ parOf k < k)) ∧
+      ∀ inc, opOrderOff op inc = .ok (ordOf k inc) := by
+    intro k hk
+    obtain ⟨op, par, h1, h2⟩ := hdec k hk
+    have hpm := parent_member_of_dec f _ op par h1
+    have hp := hpf k hk
+    rw [hpm] at hp
+    simp only at hp
+    have hpar0 : 0 ≤ par := by rcases hp with ⟨_, e⟩ | ⟨_, e, _⟩ <;> omega
+    refine ⟨op, par, h1, ?_, ?_, ?_, ?_⟩
+    · simp only [opOf, List.getElem?_eq_getElem hk, h1]
+    · simp only [parOf, List.getElem?_eq_getElem hk, h1]; omega
+    · simp only [parOf, List.getElem?_eq_getElem hk, h1]
+      rcases hp with ⟨a, b⟩ | ⟨a, b, c⟩
+      · left; exact ⟨a, by omega⟩
+      · right; exact ⟨a, by omega⟩
+    · intro inc
+      obtain ⟨r, hr⟩ := h2 inc
+      simp only [ordOf, orderOfNode, List.getElem?_eq_getElem hk, h1, hr]
+  have hn : ForeignDoc (opsCodec (f + 1)) d opOf parOf ordOf resaved := by
+    refine ⟨hne, ⟨?_, ?_, ?_⟩, ?_, ?_, hedges⟩
+    · intro k j hj
+      have hk : k < d.nodes.length := (List.getElem?_eq_some_iff.mp hj).1
+      have hj' : d.nodes[k] = j := (List.getElem?_eq_some_iff.mp hj).2
+      obtain ⟨op, par, h1, h2, h3, _, _⟩ := hfacts k hk
+      subst hj'
+      simp only [opsCodec, h1, h2, h3]
+    · have h0 : 0 < d.nodes.length := List.length_pos_iff.mpr hne
+      obtain ⟨_, _, _, _, _, h4, _⟩ := hfacts 0 h0
+      rcases h4 with ⟨_, e⟩ | ⟨e, _⟩
+      · exact e
+      · omega
+    · intro k hk0 hk
+      obtain ⟨_, _, _, _, _, h4, _⟩ := hfacts k hk
+      rcases h4 with ⟨e, _⟩ | ⟨_, e⟩
+      · omega
+      · exact e
+    · intro k hk
+      obtain ⟨op, par, h1, h2, h3, _, _⟩ := hfacts k hk
+      have := abs_dec_op f d.nodes[k] op par h1
+      simp only [opsCodec, h2, h3, this, resaved, List.getElem?_eq_getElem hk]
+    · intro m inc hm
+      obtain ⟨op, par, h1, h2, _, _, h5⟩ := hfacts m hm
+      show opOrderOff (opOf m) inc = _
+      rw [h2]; exact h5 inc
+  obtain ⟨s, hs, d', hd', e1, e2, e3⟩ := foreign_load_save (opsCodec (f + 1)) d opOf parOf ordOf resaved hn
+  refine ⟨s, hs, d', hd', ?_, ?_, ?_⟩
+  · rw [e1]
+    apply List.ext_getElem
+    · simp
+    · intro i h1 h2
+      simp only [List.length_map, List.length_range] at h1
+      simp [resaved, List.getElem?_eq_getElem h1]
+  · rw [e2]
+    apply List.map_congr_left
+    intro e _
+    have hoff : ∀ (o : Option Int) (r : Option Nat), resavedOff o r = C05Doc.savedOffset o r := by
+      intro o r; cases o <;> cases r <;> rfl
+    simp only [resavedEdge, hoff, ordOf]
+  · rw [e3]; rfl
 
 /-- Non-vacuity at document level, by evaluation of the model: a foreign document in the Rust
     writer's conventions — no `metadata`/`encoder` member, an extra `version`, a state-order edge
